@@ -24,14 +24,15 @@ open Sqfs
 (proved unreachable for the fuel the wrappers pass). -/
 inductive Err
   | alloc | io | compressor | internal | corrupted | unsupported | overflow | oob | notDir | noEntry
-  | linkLoop | notFile | argInvalid | sequence | fuel
+  | linkLoop | notFile | argInvalid | sequence | superMagic | superVersion | superBlockSize | fuel
   deriving DecidableEq, Repr, Inhabited
 
 def Err.name : Err → String
   | .alloc => "ALLOC" | .io => "IO" | .compressor => "COMPRESSOR" | .internal => "INTERNAL"
   | .corrupted => "CORRUPTED" | .unsupported => "UNSUPPORTED" | .overflow => "OVERFLOW" | .oob => "OOB"
   | .notDir => "NOT_DIR" | .noEntry => "NO_ENTRY" | .linkLoop => "LINK_LOOP" | .notFile => "NOT_FILE"
-  | .argInvalid => "ARG_INVALID" | .sequence => "SEQUENCE" | .fuel => "FUEL"
+  | .argInvalid => "ARG_INVALID" | .sequence => "SEQUENCE" | .superMagic => "SUPER_MAGIC"
+  | .superVersion => "SUPER_VERSION" | .superBlockSize => "SUPER_BLOCK_SIZE" | .fuel => "FUEL"
 
 /-- the buffers the modelled routines touch -/
 inductive Buf
@@ -52,6 +53,22 @@ inductive Buf
   | idxSrc        -- `inode->extra` read by `sqfs_inode_unpack_dir_index_entry`
   | idxOut        -- the entry `sqfs_inode_unpack_dir_index_entry` allocates
   | path          -- the caller's C string in `sqfs_dir_reader_resolve_path` (capacity = strlen + 1)
+  -- `Sqfs/Model/ReaderTables.lean`
+  | superBuf      -- `sqfs_super_t temp` in `sqfs_super_read`
+  | idTable       -- `tbl->ids.data` (`sqfs_id_table_read`: the table `sqfs_read_table` allocated)
+  | fragTable     -- `tbl->table.data` (`sqfs_frag_table_read`)
+  | xattrIdTbl    -- `sqfs_xattr_id_table_t idtbl` in `sqfs_xattr_reader_load`
+  | idBlockStarts -- `xr->id_block_starts` (`alloc_array(sizeof(sqfs_u64), num_id_blocks)`)
+  | xattrDesc     -- the caller's `sqfs_xattr_id_t *desc`
+  | xattrKeyHdr   -- `sqfs_xattr_entry_t key` on the stack of the xattr read functions
+  | xattrValHdr   -- `sqfs_xattr_value_t value` ditto
+  | xattrRef      -- `sqfs_u64 ref` in `read_value_hdr`
+  | xattrKeyOut   -- the entry `sqfs_xattr_reader_read_key` allocates
+  | xattrValOut   -- the value `sqfs_xattr_reader_read_value` allocates
+  | xattrKv       -- the `sqfs_xattr_t` `sqfs_xattr_reader_read` allocates and grows
+  | dirEntryOut   -- the `sqfs_dir_entry_t` `sqfs_dir_entry_from_inode` allocates
+  | nameIn        -- the `name` argument of `sqfs_dir_entry_from_inode` (the `ent->size + 2` bytes of a `sqfs_dir_node_t` name)
+  | linkOut       -- the string `it_read_link` allocates
   deriving DecidableEq, Repr
 
 structure Access where
